@@ -170,9 +170,14 @@ fn wider(a: u8, b: u8) -> u8 {
 }
 
 // ---------------------------------------------------------------------------------------------
-// C02 / C01 / C03: signed integer arithmetic; one harness per concrete (op, left kind, right kind)
-// (a symbolic discriminant makes CBMC unwind Value's drop glue without bound), full value domain.
+// Integer arithmetic: one harness per concrete (op, left kind, right kind); a symbolic
+// discriminant makes CBMC unwind Value's drop glue without bound. Full value domain per harness.
 // ---------------------------------------------------------------------------------------------
+
+fn is_val(e: RefOut) -> bool { matches!(e, RefOut::Val(_)) }
+fn is_ovf(e: RefOut) -> bool { matches!(e, RefOut::Overflow) }
+fn is_dz(e: RefOut) -> bool { matches!(e, RefOut::DivZero) }
+fn is_mz(e: RefOut) -> bool { matches!(e, RefOut::ModZero) }
 
 macro_rules! signed_arith {
     ($name:ident, $op:ident, $kl:expr, $kr:expr, |$a:ident, $b:ident| $exp:expr, [$($cov:expr),*]) => {
@@ -191,17 +196,184 @@ macro_rules! signed_arith {
     };
 }
 
-fn is_val(e: RefOut) -> bool { matches!(e, RefOut::Val(_)) }
-fn is_ovf(e: RefOut) -> bool { matches!(e, RefOut::Overflow) }
-fn is_dz(e: RefOut) -> bool { matches!(e, RefOut::DivZero) }
-fn is_mz(e: RefOut) -> bool { matches!(e, RefOut::ModZero) }
+macro_rules! unsigned_arith {
+    ($name:ident, $op:ident, $kl:expr, $kr:expr, |$a:ident, $b:ident| $exp:expr, [$($cov:expr),*]) => {
+        #[kani::proof]
+        fn $name() {
+            let ($a, $b) = (any_unsigned($kl), any_unsigned($kr));
+            let t = wider($kl, $kr);
+            let exp: RefOut = $exp;
+            let exp = match exp { RefOut::Val(v) => in_u_range(t, v as u128), e => e };
+            let r = apply_binary(BinaryOp::$op, mk_unsigned($kl, $a), mk_unsigned($kr, $b), &profile());
+            let ok = agree_unsigned(&r, t, exp);
+            $( kani::cover!($cov(exp)); )*
+            std::mem::forget(r);
+            assert!(ok, "result equals the exact result in the wider operand type; fault iff the reference faults");
+        }
+    };
+}
 
-// @unit id=ops.add.lint.lint props=C01,C02,C03 tier=quick kind=proof fn=apply_binary,numeric_arith,signed_from_i128,to_i64,wider_numeric
-signed_arith!(ops_add_lint_lint, Add, 3, 3, |a, b| RefOut::Val(a as i128 + b as i128), [is_val, is_ovf]);
+fn u_sub(a: u64, b: u64) -> RefOut { if a < b { RefOut::Overflow } else { RefOut::Val((a - b) as i128) } }
+/// exact unsigned product, as i128 when it fits below 2^127 (always out of every target range otherwise)
+fn u_mul(a: u64, b: u64) -> RefOut {
+    let p = a as u128 * b as u128;
+    if p > u64::MAX as u128 { RefOut::Overflow } else { RefOut::Val(p as i128) }
+}
+
+// @unit id=ops.add.sint.sint props=C01,C02,C03 tier=quick kind=proof fn=apply_binary,numeric_arith,signed_from_i128,to_i64,wider_numeric
+signed_arith!(ops_add_sint_sint, Add, 0, 0, |a, b| RefOut::Val(a as i128 + b as i128), [is_val, is_ovf]);
 // @unit id=ops.add.int.int props=C01,C02,C03 tier=quick kind=proof fn=apply_binary,numeric_arith,signed_from_i128,to_i64,wider_numeric
 signed_arith!(ops_add_int_int, Add, 1, 1, |a, b| RefOut::Val(a as i128 + b as i128), [is_val, is_ovf]);
+// @unit id=ops.add.dint.dint props=C01,C02,C03 tier=quick kind=proof fn=apply_binary,numeric_arith,signed_from_i128,to_i64,wider_numeric
+signed_arith!(ops_add_dint_dint, Add, 2, 2, |a, b| RefOut::Val(a as i128 + b as i128), [is_val, is_ovf]);
+// @unit id=ops.add.lint.lint props=C01,C02,C03 tier=quick kind=proof fn=apply_binary,numeric_arith,signed_from_i128,to_i64,wider_numeric
+signed_arith!(ops_add_lint_lint, Add, 3, 3, |a, b| RefOut::Val(a as i128 + b as i128), [is_val, is_ovf]);
 // @unit id=ops.add.sint.dint props=C01,C02,C03 tier=quick kind=proof fn=apply_binary,numeric_arith,signed_from_i128,to_i64,wider_numeric
 signed_arith!(ops_add_sint_dint, Add, 0, 2, |a, b| RefOut::Val(a as i128 + b as i128), [is_val, is_ovf]);
+// @unit id=ops.add.lint.int props=C01,C02,C03 tier=thorough kind=proof fn=apply_binary,numeric_arith,signed_from_i128,to_i64,wider_numeric
+signed_arith!(ops_add_lint_int, Add, 3, 1, |a, b| RefOut::Val(a as i128 + b as i128), [is_val, is_ovf]);
+
+// @unit id=ops.sub.sint.sint props=C01,C02,C03 tier=thorough kind=proof fn=apply_binary,numeric_arith,signed_from_i128
+signed_arith!(ops_sub_sint_sint, Sub, 0, 0, |a, b| RefOut::Val(a as i128 - b as i128), [is_val, is_ovf]);
+// @unit id=ops.sub.int.int props=C01,C02,C03 tier=quick kind=proof fn=apply_binary,numeric_arith,signed_from_i128
+signed_arith!(ops_sub_int_int, Sub, 1, 1, |a, b| RefOut::Val(a as i128 - b as i128), [is_val, is_ovf]);
+// @unit id=ops.sub.dint.dint props=C01,C02,C03 tier=quick kind=proof fn=apply_binary,numeric_arith,signed_from_i128
+signed_arith!(ops_sub_dint_dint, Sub, 2, 2, |a, b| RefOut::Val(a as i128 - b as i128), [is_val, is_ovf]);
+// @unit id=ops.sub.lint.lint props=C01,C02,C03 tier=quick kind=proof fn=apply_binary,numeric_arith,signed_from_i128
+signed_arith!(ops_sub_lint_lint, Sub, 3, 3, |a, b| RefOut::Val(a as i128 - b as i128), [is_val, is_ovf]);
+// @unit id=ops.sub.int.dint props=C01,C02,C03 tier=quick kind=proof fn=apply_binary,numeric_arith,signed_from_i128,wider_numeric
+signed_arith!(ops_sub_int_dint, Sub, 1, 2, |a, b| RefOut::Val(a as i128 - b as i128), [is_val, is_ovf]);
+
+// @unit id=ops.mul.sint.sint props=C01,C02,C03 tier=quick kind=proof fn=apply_binary,numeric_arith,signed_from_i128
+signed_arith!(ops_mul_sint_sint, Mul, 0, 0, |a, b| RefOut::Val(a as i128 * b as i128), [is_val, is_ovf]);
+// @unit id=ops.mul.int.int props=C01,C02,C03 tier=quick kind=proof fn=apply_binary,numeric_arith,signed_from_i128
+signed_arith!(ops_mul_int_int, Mul, 1, 1, |a, b| RefOut::Val(a as i128 * b as i128), [is_val, is_ovf]);
+// @unit id=ops.mul.dint.dint props=C01,C02,C03 tier=quick kind=proof fn=apply_binary,numeric_arith,signed_from_i128
+signed_arith!(ops_mul_dint_dint, Mul, 2, 2, |a, b| RefOut::Val(a as i128 * b as i128), [is_val, is_ovf]);
+// @unit id=ops.mul.lint.lint props=C01,C02,C03 tier=thorough kind=proof timeout=900 fn=apply_binary,numeric_arith,signed_from_i128
+signed_arith!(ops_mul_lint_lint, Mul, 3, 3, |a, b| RefOut::Val(a as i128 * b as i128), [is_val, is_ovf]);
+// @unit id=ops.mul.dint.sint props=C01,C02,C03 tier=thorough kind=proof fn=apply_binary,numeric_arith,signed_from_i128,wider_numeric
+signed_arith!(ops_mul_dint_sint, Mul, 2, 0, |a, b| RefOut::Val(a as i128 * b as i128), [is_val, is_ovf]);
+
+// @unit id=ops.add.usint.usint props=C01,C02,C03 tier=thorough kind=proof fn=apply_binary,numeric_arith,unsigned_from_u128,to_u64
+unsigned_arith!(ops_add_usint_usint, Add, 0, 0, |a, b| RefOut::Val(a as i128 + b as i128), [is_val, is_ovf]);
+// @unit id=ops.add.uint.uint props=C01,C02,C03 tier=quick kind=proof fn=apply_binary,numeric_arith,unsigned_from_u128,to_u64
+unsigned_arith!(ops_add_uint_uint, Add, 1, 1, |a, b| RefOut::Val(a as i128 + b as i128), [is_val, is_ovf]);
+// @unit id=ops.add.udint.udint props=C01,C02,C03 tier=thorough kind=proof fn=apply_binary,numeric_arith,unsigned_from_u128,to_u64
+unsigned_arith!(ops_add_udint_udint, Add, 2, 2, |a, b| RefOut::Val(a as i128 + b as i128), [is_val, is_ovf]);
+// @unit id=ops.add.ulint.ulint props=C01,C02,C03 tier=quick kind=proof fn=apply_binary,numeric_arith,unsigned_from_u128,to_u64
+unsigned_arith!(ops_add_ulint_ulint, Add, 3, 3, |a, b| RefOut::Val(a as i128 + b as i128), [is_val, is_ovf]);
+// @unit id=ops.add.usint.udint props=C01,C02,C03 tier=quick kind=proof fn=apply_binary,numeric_arith,unsigned_from_u128,to_u64,wider_numeric
+unsigned_arith!(ops_add_usint_udint, Add, 0, 2, |a, b| RefOut::Val(a as i128 + b as i128), [is_val, is_ovf]);
+// @unit id=ops.sub.uint.uint props=C01,C02,C03 tier=quick kind=proof fn=apply_binary,numeric_arith,unsigned_from_u128,to_u64
+unsigned_arith!(ops_sub_uint_uint, Sub, 1, 1, |a, b| u_sub(a, b), [is_val, is_ovf]);
+// @unit id=ops.sub.ulint.ulint props=C01,C02,C03 tier=quick kind=proof fn=apply_binary,numeric_arith,unsigned_from_u128,to_u64
+unsigned_arith!(ops_sub_ulint_ulint, Sub, 3, 3, |a, b| u_sub(a, b), [is_val, is_ovf]);
+// @unit id=ops.sub.udint.usint props=C01,C02,C03 tier=thorough kind=proof fn=apply_binary,numeric_arith,unsigned_from_u128,to_u64,wider_numeric
+unsigned_arith!(ops_sub_udint_usint, Sub, 2, 0, |a, b| u_sub(a, b), [is_val, is_ovf]);
+// @unit id=ops.mul.usint.usint props=C01,C02,C03 tier=quick kind=proof fn=apply_binary,numeric_arith,unsigned_from_u128,to_u64
+unsigned_arith!(ops_mul_usint_usint, Mul, 0, 0, |a, b| u_mul(a, b), [is_val, is_ovf]);
+// @unit id=ops.mul.uint.uint props=C01,C02,C03 tier=quick kind=proof fn=apply_binary,numeric_arith,unsigned_from_u128,to_u64
+unsigned_arith!(ops_mul_uint_uint, Mul, 1, 1, |a, b| u_mul(a, b), [is_val, is_ovf]);
+// @unit id=ops.mul.udint.udint props=C01,C02,C03 tier=quick kind=proof fn=apply_binary,numeric_arith,unsigned_from_u128,to_u64
+unsigned_arith!(ops_mul_udint_udint, Mul, 2, 2, |a, b| u_mul(a, b), [is_val, is_ovf]);
+// @unit id=ops.mul.ulint.ulint props=C01,C02,C03 tier=thorough kind=proof timeout=900 fn=apply_binary,numeric_arith,unsigned_from_u128,to_u64
+unsigned_arith!(ops_mul_ulint_ulint, Mul, 3, 3, |a, b| u_mul(a, b), [is_val, is_ovf]);
+
+// ---------------------------------------------------------------------------------------------
+// Division and MOD. The contract is relational (no second divider in the oracle):
+//   DIV:  b = 0 -> DivisionByZero;  the true quotient out of range (only MIN / -1) -> Overflow;
+//         otherwise Ok(q) with  a = q*b + r,  |r| < |b|,  r = 0 or sign(r) = sign(a)   (truncation)
+//   MOD:  b = 0 -> ModuloByZero;  otherwise Ok(r) with the r of the same decomposition, where the
+//         quotient is taken from the DIV result just contracted (or 2^(n-1) for MIN MOD -1 = 0).
+// These conditions determine q and r uniquely.
+// ---------------------------------------------------------------------------------------------
+
+fn trunc_decomp_ok(a: i128, b: i128, q: i128, r: i128) -> bool {
+    let abs = |x: i128| if x < 0 { -x } else { x };
+    a == q * b + r && abs(r) < abs(b) && (r == 0 || (r < 0) == (a < 0))
+}
+
+macro_rules! signed_divmod {
+    ($name:ident, $kl:expr, $kr:expr) => {
+        #[kani::proof]
+        fn $name() {
+            let (a, b) = (any_signed($kl), any_signed($kr));
+            let t = wider($kl, $kr);
+            let (lo, _hi) = s_range(t);
+            let d = apply_binary(BinaryOp::Div, mk_signed($kl, a), mk_signed($kr, b), &profile());
+            let m = apply_binary(BinaryOp::Mod, mk_signed($kl, a), mk_signed($kr, b), &profile());
+            let min_over_minus_one = a == lo && b == -1;
+            let ok = if b == 0 {
+                matches!(&d, Err(RuntimeError::DivisionByZero)) && matches!(&m, Err(RuntimeError::ModuloByZero))
+            } else if min_over_minus_one {
+                matches!(&d, Err(RuntimeError::Overflow))
+                    && matches!(&m, Ok(v) if view_signed(v) == Some((t, 0)))
+            } else {
+                match (&d, &m) {
+                    (Ok(q), Ok(r)) => match (view_signed(q), view_signed(r)) {
+                        (Some((kq, q)), Some((kr, r))) => {
+                            kq == t && kr == t && trunc_decomp_ok(a as i128, b as i128, q as i128, r as i128)
+                        }
+                        _ => false,
+                    },
+                    _ => false,
+                }
+            };
+            kani::cover!(b == 0);
+            kani::cover!(min_over_minus_one);
+            kani::cover!(b != 0 && !min_over_minus_one && a < 0 && b > 1);
+            std::mem::forget(d);
+            std::mem::forget(m);
+            assert!(ok, "DIV truncates toward zero, MOD takes the dividend's sign, faults exactly on zero divisor / MIN DIV -1");
+        }
+    };
+}
+
+macro_rules! unsigned_divmod {
+    ($name:ident, $kl:expr, $kr:expr) => {
+        #[kani::proof]
+        fn $name() {
+            let (a, b) = (any_unsigned($kl), any_unsigned($kr));
+            let t = wider($kl, $kr);
+            let d = apply_binary(BinaryOp::Div, mk_unsigned($kl, a), mk_unsigned($kr, b), &profile());
+            let m = apply_binary(BinaryOp::Mod, mk_unsigned($kl, a), mk_unsigned($kr, b), &profile());
+            let ok = if b == 0 {
+                matches!(&d, Err(RuntimeError::DivisionByZero)) && matches!(&m, Err(RuntimeError::ModuloByZero))
+            } else {
+                match (&d, &m) {
+                    (Ok(q), Ok(r)) => match (view_unsigned(q), view_unsigned(r)) {
+                        (Some((kq, q)), Some((kr, r))) => {
+                            kq == t && kr == t && (a as u128) == (q as u128) * (b as u128) + (r as u128) && r < b
+                        }
+                        _ => false,
+                    },
+                    _ => false,
+                }
+            };
+            kani::cover!(b == 0);
+            kani::cover!(b > 1 && a > b);
+            std::mem::forget(d);
+            std::mem::forget(m);
+            assert!(ok, "unsigned DIV/MOD: a = q*b + r with r < b; faults exactly on a zero divisor");
+        }
+    };
+}
+
+// @unit id=ops.divmod.sint.sint props=C01,C02,C03 tier=quick kind=proof fn=apply_binary,numeric_arith,signed_from_i128
+signed_divmod!(ops_divmod_sint_sint, 0, 0);
+// @unit id=ops.divmod.int.int props=C01,C02,C03 tier=quick kind=proof timeout=600 fn=apply_binary,numeric_arith,signed_from_i128
+signed_divmod!(ops_divmod_int_int, 1, 1);
+// @unit id=ops.divmod.dint.dint props=C01,C02,C03 tier=thorough kind=proof timeout=1800 fn=apply_binary,numeric_arith,signed_from_i128
+signed_divmod!(ops_divmod_dint_dint, 2, 2);
+// @unit id=ops.divmod.int.sint props=C01,C02,C03 tier=thorough kind=proof timeout=600 fn=apply_binary,numeric_arith,signed_from_i128,wider_numeric
+signed_divmod!(ops_divmod_int_sint, 1, 0);
+// @unit id=ops.divmod.usint.usint props=C01,C02,C03 tier=quick kind=proof fn=apply_binary,numeric_arith,unsigned_from_u128
+unsigned_divmod!(ops_divmod_usint_usint, 0, 0);
+// @unit id=ops.divmod.uint.uint props=C01,C02,C03 tier=quick kind=proof timeout=600 fn=apply_binary,numeric_arith,unsigned_from_u128
+unsigned_divmod!(ops_divmod_uint_uint, 1, 1);
+// @unit id=ops.divmod.udint.udint props=C01,C02,C03 tier=thorough kind=proof timeout=1800 fn=apply_binary,numeric_arith,unsigned_from_u128
+unsigned_divmod!(ops_divmod_udint_udint, 2, 2);
 
 // ---------------------------------------------------------------------------------------------
 // apply_unary
@@ -231,3 +403,405 @@ unary_neg_signed!(ops_neg_int, 1);
 unary_neg_signed!(ops_neg_dint, 2);
 // @unit id=ops.neg.lint props=C01,C02,C03 tier=quick kind=proof fn=apply_unary
 unary_neg_signed!(ops_neg_lint, 3);
+
+// @unit id=ops.unary.not props=C01,C02,C03 tier=quick kind=proof fn=apply_unary
+#[kani::proof]
+fn ops_unary_not() {
+    let b: bool = kani::any();
+    let x8: u8 = kani::any();
+    let x16: u16 = kani::any();
+    let x32: u32 = kani::any();
+    let x64: u64 = kani::any();
+    let r0 = apply_unary(UnaryOp::Not, Value::Bool(b));
+    let r1 = apply_unary(UnaryOp::Not, Value::Byte(x8));
+    let r2 = apply_unary(UnaryOp::Not, Value::Word(x16));
+    let r3 = apply_unary(UnaryOp::Not, Value::DWord(x32));
+    let r4 = apply_unary(UnaryOp::Not, Value::LWord(x64));
+    let ok = matches!(&r0, Ok(Value::Bool(v)) if *v == !b)
+        && matches!(&r1, Ok(Value::Byte(v)) if *v == x8 ^ 0xff)
+        && matches!(&r2, Ok(Value::Word(v)) if *v == x16 ^ 0xffff)
+        && matches!(&r3, Ok(Value::DWord(v)) if *v == x32 ^ 0xffff_ffff)
+        && matches!(&r4, Ok(Value::LWord(v)) if *v == x64 ^ u64::MAX);
+    kani::cover!(b);
+    std::mem::forget((r0, r1, r2, r3, r4));
+    assert!(ok, "NOT is logical negation on BOOL and the bitwise complement on bit strings, same type");
+}
+
+// @unit id=ops.unary.pos props=C01,C02,C03 tier=quick kind=proof fn=apply_unary
+#[kani::proof]
+fn ops_unary_pos() {
+    let a: i16 = kani::any();
+    let u: u32 = kani::any();
+    let r0 = apply_unary(UnaryOp::Pos, Value::Int(a));
+    let r1 = apply_unary(UnaryOp::Pos, Value::UDInt(u));
+    let ok = matches!(&r0, Ok(Value::Int(v)) if *v == a) && matches!(&r1, Ok(Value::UDInt(v)) if *v == u);
+    kani::cover!(a < 0);
+    std::mem::forget((r0, r1));
+    assert!(ok, "unary plus is the identity");
+}
+
+// ---------------------------------------------------------------------------------------------
+// Comparisons: mathematical order on the operand values, result BOOL
+// ---------------------------------------------------------------------------------------------
+
+fn cmp_all(l: &dyn Fn() -> Value, r: &dyn Fn() -> Value, lt: bool, eq: bool) -> bool {
+    let p = profile();
+    let r_lt = apply_binary(BinaryOp::Lt, l(), r(), &p);
+    let r_le = apply_binary(BinaryOp::Le, l(), r(), &p);
+    let r_gt = apply_binary(BinaryOp::Gt, l(), r(), &p);
+    let r_ge = apply_binary(BinaryOp::Ge, l(), r(), &p);
+    let r_eq = apply_binary(BinaryOp::Eq, l(), r(), &p);
+    let r_ne = apply_binary(BinaryOp::Ne, l(), r(), &p);
+    let ok = agree_bool(&r_lt, lt)
+        && agree_bool(&r_le, lt || eq)
+        && agree_bool(&r_gt, !lt && !eq)
+        && agree_bool(&r_ge, !lt)
+        && agree_bool(&r_eq, eq)
+        && agree_bool(&r_ne, !eq);
+    std::mem::forget((r_lt, r_le, r_gt, r_ge, r_eq, r_ne));
+    ok
+}
+
+macro_rules! cmp_harness {
+    ($name:ident, $mk_l:expr, $ty_l:ty, $mk_r:expr, $ty_r:ty, $wide:ty) => {
+        #[kani::proof]
+        fn $name() {
+            let a: $ty_l = kani::any();
+            let b: $ty_r = kani::any();
+            let ok = cmp_all(&|| $mk_l(a), &|| $mk_r(b), (a as $wide) < (b as $wide), (a as $wide) == (b as $wide));
+            kani::cover!((a as $wide) < (b as $wide));
+            kani::cover!((a as $wide) == (b as $wide));
+            kani::cover!((a as $wide) > (b as $wide));
+            assert!(ok, "< <= > >= = <> follow the mathematical order of the operand values and return BOOL");
+        }
+    };
+}
+
+// @unit id=ops.cmp.int.int props=C01,C02 tier=quick kind=proof fn=apply_binary,numeric_cmp,numeric_eq,to_i64
+cmp_harness!(ops_cmp_int_int, Value::Int, i16, Value::Int, i16, i128);
+// @unit id=ops.cmp.lint.lint props=C01,C02 tier=quick kind=proof fn=apply_binary,numeric_cmp,numeric_eq,to_i64
+cmp_harness!(ops_cmp_lint_lint, Value::LInt, i64, Value::LInt, i64, i128);
+// @unit id=ops.cmp.sint.dint props=C01,C02 tier=quick kind=proof fn=apply_binary,numeric_cmp,numeric_eq,to_i64,wider_numeric
+cmp_harness!(ops_cmp_sint_dint, Value::SInt, i8, Value::DInt, i32, i128);
+// @unit id=ops.cmp.dint.dint props=C01,C02 tier=thorough kind=proof fn=apply_binary,numeric_cmp,numeric_eq,to_i64
+cmp_harness!(ops_cmp_dint_dint, Value::DInt, i32, Value::DInt, i32, i128);
+// @unit id=ops.cmp.uint.uint props=C01,C02 tier=quick kind=proof fn=apply_binary,numeric_cmp,numeric_eq,to_u64
+cmp_harness!(ops_cmp_uint_uint, Value::UInt, u16, Value::UInt, u16, i128);
+// @unit id=ops.cmp.ulint.ulint props=C01,C02 tier=quick kind=proof fn=apply_binary,numeric_cmp,numeric_eq,to_u64
+cmp_harness!(ops_cmp_ulint_ulint, Value::ULInt, u64, Value::ULInt, u64, i128);
+// @unit id=ops.cmp.usint.udint props=C01,C02 tier=thorough kind=proof fn=apply_binary,numeric_cmp,numeric_eq,to_u64,wider_numeric
+cmp_harness!(ops_cmp_usint_udint, Value::USInt, u8, Value::UDInt, u32, i128);
+// @unit id=ops.cmp.byte.byte props=C01,C02 tier=quick kind=proof fn=apply_binary,non_numeric_cmp,ord_cmp,numeric_eq
+cmp_harness!(ops_cmp_byte_byte, Value::Byte, u8, Value::Byte, u8, i128);
+// @unit id=ops.cmp.word.word props=C01,C02 tier=thorough kind=proof fn=apply_binary,non_numeric_cmp,ord_cmp,numeric_eq
+cmp_harness!(ops_cmp_word_word, Value::Word, u16, Value::Word, u16, i128);
+// @unit id=ops.cmp.dword.dword props=C01,C02 tier=thorough kind=proof fn=apply_binary,non_numeric_cmp,ord_cmp,numeric_eq
+cmp_harness!(ops_cmp_dword_dword, Value::DWord, u32, Value::DWord, u32, i128);
+// @unit id=ops.cmp.lword.lword props=C01,C02 tier=quick kind=proof fn=apply_binary,non_numeric_cmp,ord_cmp,numeric_eq
+cmp_harness!(ops_cmp_lword_lword, Value::LWord, u64, Value::LWord, u64, i128);
+// @unit id=ops.cmp.char.char props=C01,C02 tier=thorough kind=proof fn=apply_binary,non_numeric_cmp,ord_cmp,numeric_eq
+cmp_harness!(ops_cmp_char_char, Value::Char, u8, Value::Char, u8, i128);
+// @unit id=ops.cmp.wchar.wchar props=C01,C02 tier=thorough kind=proof fn=apply_binary,non_numeric_cmp,ord_cmp,numeric_eq
+cmp_harness!(ops_cmp_wchar_wchar, Value::WChar, u16, Value::WChar, u16, i128);
+
+fn mk_time(n: i64) -> Value { Value::Time(Duration::from_nanos(n)) }
+fn mk_ltime(n: i64) -> Value { Value::LTime(Duration::from_nanos(n)) }
+fn mk_date(n: i64) -> Value { Value::Date(DateValue::new(n)) }
+fn mk_ldate(n: i64) -> Value { Value::LDate(LDateValue::new(n)) }
+fn mk_tod(n: i64) -> Value { Value::Tod(TimeOfDayValue::new(n)) }
+fn mk_ltod(n: i64) -> Value { Value::LTod(LTimeOfDayValue::new(n)) }
+fn mk_dt(n: i64) -> Value { Value::Dt(DateTimeValue::new(n)) }
+fn mk_ldt(n: i64) -> Value { Value::Ldt(LDateTimeValue::new(n)) }
+
+// @unit id=ops.cmp.time props=C01,C02 tier=quick kind=proof fn=apply_binary,time_cmp,time_cmp_values,numeric_eq
+cmp_harness!(ops_cmp_time, mk_time, i64, mk_time, i64, i128);
+// @unit id=ops.cmp.ltime props=C01,C02 tier=thorough kind=proof fn=apply_binary,time_cmp,time_cmp_values,numeric_eq
+cmp_harness!(ops_cmp_ltime, mk_ltime, i64, mk_ltime, i64, i128);
+// @unit id=ops.cmp.date props=C01,C02 tier=thorough kind=proof fn=apply_binary,time_cmp,time_cmp_values,numeric_eq
+cmp_harness!(ops_cmp_date, mk_date, i64, mk_date, i64, i128);
+// @unit id=ops.cmp.tod props=C01,C02 tier=quick kind=proof fn=apply_binary,time_cmp,time_cmp_values,numeric_eq
+cmp_harness!(ops_cmp_tod, mk_tod, i64, mk_tod, i64, i128);
+// @unit id=ops.cmp.dt props=C01,C02 tier=thorough kind=proof fn=apply_binary,time_cmp,time_cmp_values,numeric_eq
+cmp_harness!(ops_cmp_dt, mk_dt, i64, mk_dt, i64, i128);
+// @unit id=ops.cmp.ldt props=C01,C02 tier=thorough kind=proof fn=apply_binary,time_cmp,time_cmp_values,numeric_eq
+cmp_harness!(ops_cmp_ldt, mk_ldt, i64, mk_ldt, i64, i128);
+// @unit id=ops.cmp.ldate props=C01,C02 tier=thorough kind=proof fn=apply_binary,time_cmp,time_cmp_values,numeric_eq
+cmp_harness!(ops_cmp_ldate, mk_ldate, i64, mk_ldate, i64, i128);
+// @unit id=ops.cmp.ltod props=C01,C02 tier=thorough kind=proof fn=apply_binary,time_cmp,time_cmp_values,numeric_eq
+cmp_harness!(ops_cmp_ltod, mk_ltod, i64, mk_ltod, i64, i128);
+
+// @unit id=ops.cmp.bool props=C01,C02 tier=quick kind=proof fn=apply_binary,non_numeric_cmp,numeric_eq
+#[kani::proof]
+fn ops_cmp_bool() {
+    let a: bool = kani::any();
+    let b: bool = kani::any();
+    let ok = cmp_all(&|| Value::Bool(a), &|| Value::Bool(b), !a && b, a == b);
+    kani::cover!(a && !b);
+    assert!(ok, "BOOL comparisons order FALSE < TRUE");
+}
+
+// ---------------------------------------------------------------------------------------------
+// AND / OR / XOR
+// ---------------------------------------------------------------------------------------------
+
+macro_rules! bit_harness {
+    ($name:ident, $var:ident, $ty:ty) => {
+        #[kani::proof]
+        fn $name() {
+            let a: $ty = kani::any();
+            let b: $ty = kani::any();
+            let p = profile();
+            let r_and = apply_binary(BinaryOp::And, Value::$var(a), Value::$var(b), &p);
+            let r_or = apply_binary(BinaryOp::Or, Value::$var(a), Value::$var(b), &p);
+            let r_xor = apply_binary(BinaryOp::Xor, Value::$var(a), Value::$var(b), &p);
+            let ok = matches!(&r_and, Ok(Value::$var(v)) if *v == (a & b))
+                && matches!(&r_or, Ok(Value::$var(v)) if *v == (a | b))
+                && matches!(&r_xor, Ok(Value::$var(v)) if *v == (a ^ b));
+            kani::cover!(a != b);
+            std::mem::forget((r_and, r_or, r_xor));
+            assert!(ok, "AND/OR/XOR are bitwise on equal-width bit strings (logical on BOOL), same result type");
+        }
+    };
+}
+
+// @unit id=ops.bit.bool props=C01,C02,C03 tier=quick kind=proof fn=apply_binary,logical_or_bitwise
+bit_harness!(ops_bit_bool, Bool, bool);
+// @unit id=ops.bit.byte props=C01,C02,C03 tier=quick kind=proof fn=apply_binary,logical_or_bitwise,bit_op
+bit_harness!(ops_bit_byte, Byte, u8);
+// @unit id=ops.bit.word props=C01,C02,C03 tier=quick kind=proof fn=apply_binary,logical_or_bitwise,bit_op
+bit_harness!(ops_bit_word, Word, u16);
+// @unit id=ops.bit.dword props=C01,C02,C03 tier=quick kind=proof fn=apply_binary,logical_or_bitwise,bit_op
+bit_harness!(ops_bit_dword, DWord, u32);
+// @unit id=ops.bit.lword props=C01,C02,C03 tier=quick kind=proof fn=apply_binary,logical_or_bitwise,bit_op
+bit_harness!(ops_bit_lword, LWord, u64);
+
+// ---------------------------------------------------------------------------------------------
+// Date and time arithmetic: exact in i128 nanoseconds / ticks, range-checked.
+// The contracts are on `time_arith` (the dispatcher `apply_binary` delegates to first): going
+// through apply_binary's `if let Some(result) = time_arith(..) { return result; }` wrapper costs
+// CBMC an extra 100 s per call for the move of a symbolic Result<Value,_>, so only one harness
+// (ops.time.add.via_apply_binary) covers that wrapper.
+// ---------------------------------------------------------------------------------------------
+
+fn fits_i64(v: i128) -> bool { v >= i64::MIN as i128 && v <= i64::MAX as i128 }
+
+type TR = Option<Result<Value, RuntimeError>>;
+
+macro_rules! dur_addsub {
+    ($name:ident, $mk:expr, $var:ident, $op:ident, |$a:ident, $b:ident| $e:expr) => {
+        #[kani::proof]
+        fn $name() {
+            let $a: i64 = kani::any();
+            let $b: i64 = kani::any();
+            let (l, rr) = ($mk($a), $mk($b));
+            let r: TR = time_arith(BinaryOp::$op, &l, &rr, &profile());
+            let e: i128 = $e;
+            let ok = if fits_i64(e) { matches!(&r, Some(Ok(Value::$var(v))) if v.as_nanos() as i128 == e) } else { matches!(&r, Some(Err(RuntimeError::Overflow))) };
+            kani::cover!(fits_i64(e));
+            kani::cover!(!fits_i64(e));
+            std::mem::forget((r, l, rr));
+            assert!(ok, "TIME +/- TIME is exact in nanoseconds, Overflow iff outside the 64-bit range");
+        }
+    };
+}
+
+// @unit id=ops.time.add props=C01,C02,C03 tier=quick kind=proof fn=time_arith,time_duration_op
+dur_addsub!(ops_time_add, mk_time, Time, Add, |a, b| a as i128 + b as i128);
+// @unit id=ops.time.sub props=C01,C02,C03 tier=quick kind=proof fn=time_arith,time_duration_op
+dur_addsub!(ops_time_sub, mk_time, Time, Sub, |a, b| a as i128 - b as i128);
+// @unit id=ops.ltime.add props=C01,C02,C03 tier=quick kind=proof fn=time_arith,time_duration_op
+dur_addsub!(ops_ltime_add, mk_ltime, LTime, Add, |a, b| a as i128 + b as i128);
+// @unit id=ops.ltime.sub props=C01,C02,C03 tier=quick kind=proof fn=time_arith,time_duration_op
+dur_addsub!(ops_ltime_sub, mk_ltime, LTime, Sub, |a, b| a as i128 - b as i128);
+
+// @unit id=ops.time.add.via_apply_binary props=C01,C02,C03 tier=thorough kind=proof timeout=900 fn=apply_binary,time_arith
+#[kani::proof]
+fn ops_time_add_via_apply_binary() {
+    let a: i64 = kani::any();
+    let b: i64 = kani::any();
+    let r = apply_binary(BinaryOp::Add, mk_time(a), mk_time(b), &profile());
+    let s = a as i128 + b as i128;
+    let ok = if fits_i64(s) { matches!(&r, Ok(Value::Time(v)) if v.as_nanos() as i128 == s) } else { matches!(&r, Err(RuntimeError::Overflow)) };
+    kani::cover!(fits_i64(s));
+    kani::cover!(!fits_i64(s));
+    std::mem::forget(r);
+    assert!(ok, "apply_binary returns time_arith's result for TIME + TIME");
+}
+
+/// point (ticks) +/- TIME under the default profile (1 tick = 1 ms): the duration is truncated to whole ticks.
+macro_rules! point_with_time {
+    ($name:ident, $mkp:expr, $var:ident, $op:ident, $swap:expr, |$a:ident, $k:ident| $e:expr) => {
+        #[kani::proof]
+        fn $name() {
+            let $a: i64 = kani::any();
+            let t: i64 = kani::any();
+            let $k = (t / 1_000_000) as i128;
+            let (l, rr) = if $swap { (mk_time(t), $mkp($a)) } else { ($mkp($a), mk_time(t)) };
+            let r: TR = time_arith(BinaryOp::$op, &l, &rr, &profile());
+            let e: i128 = $e;
+            let ok = if fits_i64(e) {
+                matches!(&r, Some(Ok(Value::$var(v))) if v.ticks() as i128 == e)
+            } else {
+                matches!(&r, Some(Err(RuntimeError::DateTimeRange(_))))
+            };
+            kani::cover!(!fits_i64(e));
+            kani::cover!(fits_i64(e) && t < 0);
+            std::mem::forget((r, l, rr));
+            assert!(ok, "TOD/DT +/- TIME is exact in ticks, DateTimeRange fault iff outside the representable range");
+        }
+    };
+}
+
+// @unit id=ops.tod.add.time props=C01,C02,C03 tier=quick kind=proof timeout=600 fn=time_arith,time_of_day_with_time,duration_to_ticks
+point_with_time!(ops_tod_add_time, mk_tod, Tod, Add, false, |a, k| a as i128 + k);
+// @unit id=ops.tod.sub.time props=C01,C02,C03 tier=quick kind=proof timeout=600 fn=time_arith,time_of_day_with_time,duration_to_ticks
+point_with_time!(ops_tod_sub_time, mk_tod, Tod, Sub, false, |a, k| a as i128 - k);
+// @unit id=ops.time.add.tod props=C01,C02,C03 tier=thorough kind=proof timeout=600 fn=time_arith,time_of_day_with_time,duration_to_ticks
+point_with_time!(ops_time_add_tod, mk_tod, Tod, Add, true, |a, k| a as i128 + k);
+// @unit id=ops.dt.add.time props=C01,C02,C03 tier=quick kind=proof timeout=600 fn=time_arith,datetime_with_time,duration_to_ticks
+point_with_time!(ops_dt_add_time, mk_dt, Dt, Add, false, |a, k| a as i128 + k);
+// @unit id=ops.dt.sub.time props=C01,C02,C03 tier=thorough kind=proof timeout=600 fn=time_arith,datetime_with_time,duration_to_ticks
+point_with_time!(ops_dt_sub_time, mk_dt, Dt, Sub, false, |a, k| a as i128 - k);
+// @unit id=ops.time.add.dt props=C01,C02,C03 tier=thorough kind=proof timeout=600 fn=time_arith,datetime_with_time,duration_to_ticks
+point_with_time!(ops_time_add_dt, mk_dt, Dt, Add, true, |a, k| a as i128 + k);
+
+macro_rules! lpoint_with_time {
+    ($name:ident, $mkp:expr, $var:ident, $op:ident, $swap:expr, |$a:ident, $t:ident| $e:expr) => {
+        #[kani::proof]
+        fn $name() {
+            let $a: i64 = kani::any();
+            let $t: i64 = kani::any();
+            let (l, rr) = if $swap { (mk_ltime($t), $mkp($a)) } else { ($mkp($a), mk_ltime($t)) };
+            let r: TR = time_arith(BinaryOp::$op, &l, &rr, &profile());
+            let e: i128 = $e;
+            let ok = if fits_i64(e) {
+                matches!(&r, Some(Ok(Value::$var(v))) if v.nanos() as i128 == e)
+            } else {
+                matches!(&r, Some(Err(RuntimeError::Overflow)))
+            };
+            kani::cover!(!fits_i64(e));
+            kani::cover!(fits_i64(e));
+            std::mem::forget((r, l, rr));
+            assert!(ok, "LTOD/LDT +/- LTIME is exact in nanoseconds, Overflow iff outside the 64-bit range");
+        }
+    };
+}
+
+// @unit id=ops.ltod.add.ltime props=C01,C02,C03 tier=quick kind=proof fn=time_arith,long_tod_with_time
+lpoint_with_time!(ops_ltod_add_ltime, mk_ltod, LTod, Add, false, |a, t| a as i128 + t as i128);
+// @unit id=ops.ltod.sub.ltime props=C01,C02,C03 tier=thorough kind=proof fn=time_arith,long_tod_with_time
+lpoint_with_time!(ops_ltod_sub_ltime, mk_ltod, LTod, Sub, false, |a, t| a as i128 - t as i128);
+// @unit id=ops.ltime.add.ltod props=C01,C02,C03 tier=thorough kind=proof fn=time_arith,long_tod_with_time
+lpoint_with_time!(ops_ltime_add_ltod, mk_ltod, LTod, Add, true, |a, t| a as i128 + t as i128);
+// @unit id=ops.ldt.add.ltime props=C01,C02,C03 tier=thorough kind=proof fn=time_arith,long_datetime_with_time
+lpoint_with_time!(ops_ldt_add_ltime, mk_ldt, Ldt, Add, false, |a, t| a as i128 + t as i128);
+// @unit id=ops.ldt.sub.ltime props=C01,C02,C03 tier=quick kind=proof fn=time_arith,long_datetime_with_time
+lpoint_with_time!(ops_ldt_sub_ltime, mk_ldt, Ldt, Sub, false, |a, t| a as i128 - t as i128);
+// @unit id=ops.ltime.add.ldt props=C01,C02,C03 tier=thorough kind=proof fn=time_arith,long_datetime_with_time
+lpoint_with_time!(ops_ltime_add_ldt, mk_ldt, Ldt, Add, true, |a, t| a as i128 + t as i128);
+
+/// point - point = TIME (ticks difference scaled to nanoseconds under the default 1 ms profile)
+macro_rules! point_diff {
+    ($name:ident, $mkp:expr, $scale:expr, $var:ident) => {
+        #[kani::proof]
+        fn $name() {
+            let a: i64 = kani::any();
+            let b: i64 = kani::any();
+            let (l, rr) = ($mkp(a), $mkp(b));
+            let r: TR = time_arith(BinaryOp::Sub, &l, &rr, &profile());
+            // |a - b| < 2^64 and scale <= 10^6 < 2^20: the exact product fits i128
+            let e = (a as i128 - b as i128) * ($scale as i128);
+            let ok = if fits_i64(e) { matches!(&r, Some(Ok(Value::$var(v))) if v.as_nanos() as i128 == e) } else { matches!(&r, Some(Err(RuntimeError::Overflow))) };
+            kani::cover!(fits_i64(e) && a < b);
+            kani::cover!(!fits_i64(e));
+            std::mem::forget((r, l, rr));
+            assert!(ok, "DATE-DATE / TOD-TOD / DT-DT is the exact tick difference as a duration, Overflow iff it does not fit");
+        }
+    };
+}
+
+// @unit id=ops.date.diff props=C01,C02,C03 tier=quick kind=proof timeout=600 fn=time_arith,date_diff,ticks_to_duration
+point_diff!(ops_date_diff, mk_date, 1_000_000i64, Time);
+// @unit id=ops.tod.diff props=C01,C02,C03 tier=thorough kind=proof timeout=600 fn=time_arith,tod_diff,ticks_to_duration
+point_diff!(ops_tod_diff, mk_tod, 1_000_000i64, Time);
+// @unit id=ops.dt.diff props=C01,C02,C03 tier=thorough kind=proof timeout=600 fn=time_arith,dt_diff,ticks_to_duration
+point_diff!(ops_dt_diff, mk_dt, 1_000_000i64, Time);
+// @unit id=ops.ldate.diff props=C01,C02,C03 tier=thorough kind=proof fn=time_arith,long_date_diff
+point_diff!(ops_ldate_diff, mk_ldate, 1i64, LTime);
+// @unit id=ops.ltod.diff props=C01,C02,C03 tier=thorough kind=proof fn=time_arith,long_tod_diff
+point_diff!(ops_ltod_diff, mk_ltod, 1i64, LTime);
+// @unit id=ops.ldt.diff props=C01,C02,C03 tier=quick kind=proof fn=time_arith,long_dt_diff
+point_diff!(ops_ldt_diff, mk_ldt, 1i64, LTime);
+
+// TIME * integer (both orders) -- exact, Overflow iff outside the 64-bit range.
+macro_rules! time_mul_int {
+    ($name:ident, $var:ident, $ty:ty, $swap:expr) => {
+        #[kani::proof]
+        fn $name() {
+            let t: i64 = kani::any();
+            let f: $ty = kani::any();
+            let (l, rr) = if $swap { (Value::$var(f), mk_time(t)) } else { (mk_time(t), Value::$var(f)) };
+            let r: TR = time_arith(BinaryOp::Mul, &l, &rr, &profile());
+            let e = t as i128 * f as i128;
+            let ok = if fits_i64(e) { matches!(&r, Some(Ok(Value::Time(v))) if v.as_nanos() as i128 == e) } else { matches!(&r, Some(Err(RuntimeError::Overflow))) };
+            kani::cover!(fits_i64(e) && f > 1 && t > 1);
+            kani::cover!(!fits_i64(e));
+            std::mem::forget((r, l, rr));
+            assert!(ok, "TIME * ANY_INT is the exact product, Overflow iff it does not fit");
+        }
+    };
+}
+// @unit id=ops.time.mul.int props=C01,C02,C03 tier=quick kind=proof timeout=600 fn=time_arith,time_scale,scale_duration,numeric_factor
+time_mul_int!(ops_time_mul_int, Int, i16, false);
+// @unit id=ops.int.mul.time props=C01,C02,C03 tier=thorough kind=proof timeout=600 fn=time_arith,time_scale,scale_duration,numeric_factor
+time_mul_int!(ops_int_mul_time, Int, i16, true);
+// @unit id=ops.time.mul.udint props=C01,C02,C03 tier=thorough kind=proof timeout=900 fn=time_arith,time_scale,scale_duration,numeric_factor
+time_mul_int!(ops_time_mul_udint, UDInt, u32, false);
+
+// TIME / integer -- relational contract (no oracle divider), zero divisor -> DivisionByZero.
+macro_rules! time_div_int {
+    ($name:ident, $var:ident, $ty:ty) => {
+        #[kani::proof]
+        fn $name() {
+            let t: i64 = kani::any();
+            let f: $ty = kani::any();
+            let (l, rr) = (mk_time(t), Value::$var(f));
+            let r: TR = time_arith(BinaryOp::Div, &l, &rr, &profile());
+            let ok = if f == 0 {
+                matches!(&r, Some(Err(RuntimeError::DivisionByZero)))
+            } else if t == i64::MIN && (f as i128) == -1 {
+                matches!(&r, Some(Err(RuntimeError::Overflow)))
+            } else {
+                match &r {
+                    Some(Ok(Value::Time(q))) => {
+                        let q = q.as_nanos() as i128;
+                        let rem = t as i128 - q * f as i128;
+                        trunc_decomp_ok(t as i128, f as i128, q, rem)
+                    }
+                    _ => false,
+                }
+            };
+            kani::cover!(f == 0);
+            kani::cover!(f != 0 && t < 0);
+            std::mem::forget((r, l, rr));
+            assert!(ok, "TIME / ANY_INT truncates toward zero; DivisionByZero iff the divisor is zero");
+        }
+    };
+}
+// @unit id=ops.time.div.sint props=C01,C02,C03 tier=thorough kind=proof timeout=1800 fn=time_arith,time_scale,scale_duration,numeric_factor
+time_div_int!(ops_time_div_sint, SInt, i8);
+
+// C01-T: a zero-resolution profile must fault, not divide by zero.
+// @unit id=ops.time.zero_resolution props=C01 tier=quick kind=proof fn=duration_to_ticks,time_of_day_with_time,time_arith
+#[kani::proof]
+fn ops_time_zero_resolution() {
+    let a: i64 = kani::any();
+    let t: i64 = kani::any();
+    let p = DateTimeProfile { epoch: DateValue::new(0), resolution: Duration::from_nanos(0) };
+    let (l, rr) = (mk_tod(a), mk_time(t));
+    let r: TR = time_arith(BinaryOp::Add, &l, &rr, &p);
+    let ok = matches!(&r, Some(Err(RuntimeError::Overflow)));
+    kani::cover!(t != 0);
+    std::mem::forget((r, l, rr));
+    assert!(ok, "a zero tick resolution is reported as a fault, never a division panic");
+}
